@@ -79,6 +79,11 @@ def oracle_small(inst, obs, nmax, collect=None):
     snap, grid, n, vm = obs["snap"], list(inst["grid"]), obs["n"], obs["vars"]
     ncust = len(snap[1]) - 1
     d = dict(snap[2])
+    # the formulation works on the graph that was described (whatever the order of add_arc / set_depot calls)
+    if "arcs" in inst and "depot" in inst and not inst.get("rebuild"):
+        gp = ac.graph_problem(inst, snap)
+        if gp:
+            return ("the arc-based object does not hold the described graph, so its routes are not routes of that graph: " + gp, [], [0] * n)
     # objective
     costs = [d[(v[0], v[2])][3] if (v[0], v[2]) in d else None for v in vm]
     if obs["c"] != costs:
